@@ -457,7 +457,7 @@ PROPS["C18"] = pbt(
                 "without locks; result-changing interleavings without a data race would be found only by luck. {q} "
                 "(quick) / {t} (thorough) program sets."),
     level_note="WEAK: the harness does not own the schedule; error location (documented global) is excluded from the digests",
-    quick={"cases": 12000, "max_size": 80},
-    thorough={"cases": 200000},
+    quick={"cases": 12000, "max_size": 80, "modes": [["storm", "8", "1500"], ["storm", "16", "800"]]},
+    thorough={"cases": 200000, "modes": [["storm", "8", "12000"], ["storm", "16", "6000"], ["storm", "3", "20000"]]},
     floors={"intervals_overlapped": 0.50},
 )
